@@ -66,6 +66,8 @@ impl<T> View for Slab<T> {
 }
 pub uninterp spec fn slab_len<T>(m: Map<usize, T>) -> nat;
 impl<T> Slab<T> {
+    #[verifier::external_body]
+    pub fn new() -> (r: Self) ensures r@ == Map::<usize, T>::empty() { unimplemented!() }
     /// number of occupied entries
     #[verifier::external_body]
     pub fn len(&self) -> (r: usize) ensures r == slab_len(self@) { unimplemented!() }
